@@ -23,9 +23,10 @@ behind the neighbor method for `K > 1` or a non-trivial provenance, modelled by 
   weight `1 / C(n-1, t)`) terminates without exception and its result, divided by `n`, is EXACTLY the
   Shapley value (textbook marginal form `Sh.phiM`; `Sh.phiM_eq_phi` gives the coefficient form) of
   unit `i` in the K-NN game.  Needed besides: `K ≥ 1`, every row label `< c`, `order` as above.
-  (`n ≥ 1` is implied by `i : Fin n`.  The theorem does not need the provenance to be `Conjunctive`:
-  that predicate is what makes the oracle hypothesis attainable — C09 — and what makes `presentRows`,
-  which reads the first disjunct only, the true presence of a row.)
+  (`n ≥ 1` is implied by `i : Fin n`.  The theorem does not need the provenance to be conjunctive
+  — `Ds.Oracle.Conjunctive` of `DsProofs/OracleProofs.lean`; `AddPath.conjunctiveOk` is a Boolean form
+  used in the instances below: that predicate is what makes the oracle hypothesis attainable — C09 —
+  and what makes `presentRows`, which reads the first disjunct only, the true presence of a row.)
 * `C02_main`: for `nTest ≥ 0` validation points, if for each of them `build` (`ShapleyOracle.__init__`)
   succeeds and the oracle hypothesis holds, `scores` returns a list of length `n` whose entry `i` is the
   Shapley value of unit `i` in the MEAN over the validation points of the per-point K-NN games
@@ -178,7 +179,7 @@ example : Sh.phiM (knnGame exP3 [0,1,0] [0,1,2] [1,0] 0 2 2) (0 : Fin 3) = 1/3
     ∧ Sh.phiM (knnGame exP3 [0,1,0] [0,1,2] [1,0] 0 2 2) (1 : Fin 3) = 1/3
     ∧ Sh.phiM (knnGame exP3 [0,1,0] [0,1,2] [1,0] 0 2 2) (2 : Fin 3) = 1/3 := by decide +kernel
 
-/-- the hypotheses of `C02_knn1` hold for `exP3`, and both provenances are `Conjunctive` -/
+/-- the hypotheses of `C02_knn1` hold for `exP3`, and both provenances are conjunctive -/
 example : exP3.data.length = exP3.nUnits ∧ (∀ r < exP3.nUnits, rowUnits (exP3.data.getD r []) = [r])
     ∧ [0,1,2].Perm (List.range exP3.nUnits) ∧ (∀ r < exP3.nUnits, [0,1,0].getD r 0 < 2)
     ∧ 2 ≤ ([1,0] : List ℚ).length ∧ conjunctiveOk exP3 = true ∧ conjunctiveOk exJoin = true := by decide
